@@ -8,7 +8,7 @@ from vlib.plugin_harness import Harness
 
 ID = "C10"
 BUDGET = {"quick": 1200, "thorough": 10000}
-PROFILE = gen.profile(retract="wild", reg_events=False, maxlen=25, ext_w=3)
+PROFILE = gen.profile(retract="wild", reg_events=False, maxlen=25, ext_w=3, e_rel_ok=True)
 RULE = ("A prior history on plugin A (events incl. aborted prints, G-code through the hooks: moves into regions, G20, G91, "
         "G92 X/Y/Z/E, M206, unmatched retractions, deferred codes inside an episode; disable @-commands; API add/update/delete; "
         "settings updates), then PRINT_STARTED, then a generated program (homed or un-homed) incl. @-commands and script hooks. "
@@ -80,7 +80,8 @@ def cases(draw):
         if not any(h == ["event", "PRINT_STARTED"] for h in hist) or draw(st.booleans()):
             hist += [["event", "PRINT_STARTED"]]
         hist += [["g", "G28"], ["g", "G1 X1 Y1 Z0.2 F3000"]]
-        tx, ty = rnd.target("in", draw(st.integers(0, 3)), draw(st.integers(0, 100)), draw(st.integers(0, 100)))
+        rsel = draw(st.integers(0, 3))
+        tx, ty = rnd.target("in", rsel, draw(st.integers(0, 100)), draw(st.integers(0, 100)))
         hist.append(["g", "G1 X%s Y%s" % (gen.fmt(tx), gen.fmt(ty))])
         for _ in range(draw(st.integers(1, 5))):
             hist.append(draw(st.sampled_from([["g", "M117 left over"], ["g", "M106 S99"], ["g", "G10"], ["g", "G1 E-1 F1800"], ["g", "G20"],
@@ -89,6 +90,19 @@ def cases(draw):
         tail = draw(st.sampled_from([None, None, "PRINT_FAILED", "PRINT_CANCELLED", "PRINT_DONE", "ERROR", "PRINT_PAUSED", "FILE_SELECTED"]))
         if tail:
             hist.append(["event", tail])
+        if tail in ("PRINT_FAILED", "PRINT_CANCELLED", "PRINT_DONE", "ERROR") and draw(st.booleans()):
+            # between the prints the user moves the region the tool was in (or shrinks it to a sliver) - the next print
+            # passes over its old location
+            moved = dict(regions[rsel % len(regions)])
+            if moved["type"] == "rect":
+                x1, y1, x2, y2 = geom.norm_rect(moved)
+                moved.update(x1=x1 + 30, x2=x2 + 30) if draw(st.booleans()) else moved.update(x2=x1 + 0.01, y2=y1 + 0.01)
+            else:
+                moved.update(cx=moved["cx"] + 30) if draw(st.booleans()) else moved.update(r=0.01)
+            hist.append(["api", "updateExcludeRegion", to_api(moved)])
+        if draw(st.integers(0, 2)) == 0:
+            # a settings save that changes nothing but the global 'G90 influences extruder' flag
+            hist.append(["settings", {"g90e": not bool(base["config"].get("g90e"))}])
     prog = list(base["prog"])
     if draw(st.integers(0, 2)) == 0 and len(prog) > 1 and prog[1] == ["g", "G1 X1 Y1 Z0.2 F3000"]:
         prog[1] = ["g", "G1 X1 Y1 Z0.2"]      # no feed rate given before the first exit: exposes a stale one
